@@ -22,6 +22,30 @@ def has_dest_link(sc):
     return any(n['k'] == 'link' for n in sc.dest.values())
 
 
+def f6b_witness(run, binary, jbin, base, known, prop='C02'):
+    """The recorded witness of F6b: the deletion of a destination link fails (injected) while the file
+    that replaces it is already on its way.  Whether the queued creation overtakes the error reply is a
+    race the boss usually loses, so the run is repeated a few times."""
+    if 'F6b' not in known:
+        return
+    from sync_e2e import T0
+    for attempt in range(40):
+        sc = sync_e2e.Scenario()
+        sc.outside = {k: dict(v) for k, v in sync_e2e.OUTSIDE.items()}
+        sc.src = {'': {'k': 'dir'}, 'f': {'k': 'file', 'data': b'NEW', 'mtime_ns': T0}}
+        sc.dest = {'': {'k': 'dir'}, 'f': {'k': 'link', 'text': b'../outside/target.txt'}}
+        sc.cfg = {'newer': 'A', 'older': 'A', 'same': 'S', 'entry': 'A', 'root': 'A'}
+        sc.faults = {'fd': [0], 'fsrc': [], 'lag': 0}
+        sc.tag = 'F6b-witness'
+        o = sync_e2e.run_scenario(sc, binary, jbin, base)
+        run.count('F6b-witness-attempts')
+        if o.impl['after']['outside'] != o.impl['before']['outside']:
+            run.known('F6b', known['F6b']['what'])
+            run.case(('F6b', attempt), True, sample={'F6b_witness': 'outside/target.txt overwritten through dest/f after the injected DeleteSymlink failure', 'exit': o.impl['exit']})
+            return
+    run.notes.append('F6b witness did not manifest in 40 attempts (the error reply won the race every time)')
+
+
 def check(run):
     run.trusted = list(vlib.COMMON_TRUSTED) + ['the source-text scan of send_command sites (harness facts-sites) - the one syntactic input']
     run.assumptions = ['source and destination paths are not nested; no destination file is hard-linked from outside']
@@ -38,6 +62,7 @@ def check(run):
     base = tempfile.mkdtemp(prefix='c02_', dir=vlib.CACHE)
     fake = e2e.fake_ssh_dir(base)
     try:
+        f6b_witness(run, binary, jbin, base, known)
         scen = []
         for i in range(170 if quick else 2500):
             sc = sync_e2e.gen_scenario(rng, 'mixed' if i % 3 else 'clean')
